@@ -43,8 +43,21 @@ for f in sorted(glob.glob("seeded/*/meta.json")):
     seed_lines.append(f"| {name} | {m.get('property', name[:3])} | {suite} | {demo} | {caught} | {needs} |")
 seeds = "\n".join(seed_lines)
 
+man = json.load(open("MANIFEST.json"))
+cl = ["| id | level | engine | tier of last run | evaluations | distinct non-trivial | states / transitions | exhaustive | wall s |", "|---|---|---|---|---|---|---|---|---|"]
+for c in man["checks"]:
+    pid = c["property_id"]
+    try:
+        e = json.load(open(f"evidence/{pid}.json"))
+        cov = e["coverage"]
+        st = f"{cov['states']} / {cov['transitions']}" if "states" in cov else "-"
+        cl.append(f"| {pid} | {e['level']} | {c.get('engine', '')} | {e['tier']} | {cov.get('evaluations')} | {cov.get('distinct_nontrivial')} | {st} | {cov.get('exhaustive')} | {e['wall_s']} |")
+    except Exception:
+        cl.append(f"| {pid} | {c['level_claimed']['category']} | {c.get('engine', '')} | (no evidence yet) | | | | | |")
+checks = "\n".join(cl)
+
 s = open("DESIGN.md").read()
-for tag, body in (("FINDINGS", findings), ("SEEDED", seeds)):
+for tag, body in (("FINDINGS", findings), ("SEEDED", seeds), ("CHECKS", checks)):
     pat = re.compile(rf"(<!-- BEGIN {tag} -->\n).*?(<!-- END {tag} -->)", re.S)
     if pat.search(s):
         s = pat.sub(lambda m: m.group(1) + body + "\n" + m.group(2), s)
